@@ -443,15 +443,35 @@ func c20partA(t *testing.T, r *enumx.Run) {
 		depth = 6
 	}
 	subsets := [][]int{{1}, {2}, {3}, {1, 2}, {2, 3}, {1, 2, 3}, {2, 1}}
-	for _, kinds := range [][]string{{"att"}, {"pro"}, {"syn"}, {"att", "syn"}} {
+	// kind sets; a trailing "warm" marks a search that does not start from the empty cache but from the state a running node
+	// is in (every kind cached for both epochs, partly for a subset of the validators), with all three kinds in the alphabet
+	for _, kinds := range [][]string{{"att"}, {"pro"}, {"syn"}, {"att", "syn"}, {"pro", "att", "syn", "warm"}, {"pro", "att", "syn", "warm-partial"}} {
 		if !r.Mine() {
 			continue
+		}
+		var prefix []c20op
+		warm := strings.HasPrefix(kinds[len(kinds)-1], "warm")
+		if warm {
+			full := kinds[len(kinds)-1] == "warm"
+			kinds = kinds[:len(kinds)-1]
+			for _, k := range kinds {
+				for _, e := range []uint64{5, 6} {
+					idx := []int{1, 2, 3}
+					if !full && e == 6 {
+						idx = []int{2}
+					}
+					prefix = append(prefix, c20op{Kind: k, Epoch: e, Idxs: idx})
+				}
+			}
 		}
 		var alpha []c20op
 		for _, k := range kinds {
 			for _, e := range []uint64{5, 6} {
 				for _, s := range subsets {
 					if len(kinds) > 1 && len(s) == 1 && s[0] != 2 {
+						continue
+					}
+					if warm && !(len(s) == 3 || (len(s) == 1 && s[0] == 2)) {
 						continue
 					}
 					alpha = append(alpha, c20op{Kind: k, Epoch: e, Idxs: s})
@@ -463,20 +483,24 @@ func c20partA(t *testing.T, r *enumx.Run) {
 		if len(kinds) > 1 {
 			d--
 		}
+		if warm {
+			d = depth - 1 + len(prefix) // the scripted prefix does not count
+		}
 		type node struct {
 			parent int32
 			op     c20op
 			depth  int
 		}
-		nodes := []node{{parent: -1}}
+		nodes := []node{{parent: -1, depth: len(prefix)}}
 		hist := func(i int32) []c20op {
 			var h []c20op
 			for j := i; j > 0; j = nodes[j].parent {
 				h = append([]c20op{nodes[j].op}, h...)
 			}
-			return h
+			return append(append([]c20op(nil), prefix...), h...)
 		}
-		seen := map[string]bool{c20new().key(): true}
+		w0, _ := c20replay(prefix)
+		seen := map[string]bool{w0.key(): true}
 		frontier := []int32{0}
 		trans := 0
 		capped := false
